@@ -176,7 +176,7 @@ impl Property for C09 {
     fn runs(&self, tier: &str) -> u64 {
         // the structured family is enumerated completely; tiers differ in the decorations sampled around it
         if tier == "thorough" {
-            C09::base_cases() * 12
+            C09::base_cases() * 60
         } else {
             C09::base_cases() * 2
         }
